@@ -89,7 +89,8 @@ _EVAL_ASSUME = ['the graph handed to the evaluator carries its BooleanNetwork (a
 
 _EXT_API = ['collect_unique_wild_cards_recursive', 'collect_unique_wild_cards', 'validate_and_divide_wild_cards', 'extend_context_with_wild_cards',
             'parse_and_validate_extended', '_model_check_multiple_extended_formulae_dirty', 'model_check_multiple_extended_formulae_dirty',
-            '_model_check_extended_formula_dirty', 'model_check_extended_formula_dirty']
+            '_model_check_extended_formula_dirty', 'model_check_extended_formula_dirty',
+            '_model_check_multiple_extended_formulae', 'model_check_multiple_extended_formulae', '_model_check_extended_formula', 'model_check_extended_formula']
 PROPS['C01'] = {
     'units': ['ops', 'eval', 'api', 'front', 'lex', 'tree', 'mark'],
     'level_text': ('Proof that the recursive evaluator eval_node returns, for every graph, every well-formed tree over all operators and every '
@@ -114,7 +115,7 @@ PROPS['C02'] = {
     'level_note': ('Same trusted base as C01. Domain sets must not depend on auxiliary variables (documented requirement of the library). At the API level the extended entry points '
                    'model_check_(multiple_)extended_formula(e)_dirty are proved end to end (validation of labels against the context, cache extension, evaluation) for batches in which '
                    'every wild-card PROPOSITION label occurs at most once (domains unrestricted): for that class the occurrence counters are proved sufficient; the general case needs a '
-                   'dynamic counter invariant that was not built (DESIGN.md section 0). Sanitising extended variants are not under contract.'),
+                   'dynamic counter invariant that was not built (DESIGN.md section 0).'),
     'explanation': ('The Some(domain) arm of eval_node is verified against bind_dom_sem / exists_dom_sem / forall_dom_sem with the proved contracts of '
                     'compute_valid_domain_for_var (projection of the domain onto the variable\'s slot) and restrict_stg_unit_bdd (unit set intersected, '
                     'same transitions, no panic because the restricted unit is non-empty); arm_bind_dom / arm_exists_dom / arm_forall_dom / arm_dom_empty '
@@ -276,7 +277,7 @@ PROPS['C10'] = {
                    'label): Ok(v) => v agrees inside the unit set with the semantics in which each wild-card denotes its supplied set; Err exactly when the text is rejected or a label has no set. '
                    'For repeated labels the occurrence counters must cover the evaluations that really happen, which depends on the cache state (an occurrence below a shared sub-formula '
                    'is never evaluated); eval_node is verified under that budget as a precondition (budget_pre) and the entry points are not claimed for that case. The supplied sets are assumed '
-                   'to be sets of the graph that do not depend on auxiliary variables (documented requirement). Sanitising extended variants are not under contract. Same trusted base as C01; known findings D5 / D8.'),
+                   'to be sets of the graph that do not depend on auxiliary variables (documented requirement). The sanitising extended variants are proved too (lemma_sem_indep_ext: the result of a closed extended formula does not depend on auxiliary variables). Same trusted base as C01; known findings D5 / D8.'),
     'explanation': 'spec/subst.rs, spec/plain.rs (lemma_lex_ext, lemma_hdr_ext) in unit api; wild-card arm and hit path of eval_node in unit eval.',
     'trusted': _EVAL_TRUSTED, 'assumptions': _EVAL_ASSUME,
 }
